@@ -1,8 +1,276 @@
-(* C19 — property theorems (being filled in) *)
+(* C19 — HTTP Peer-ID auth reports only proven identities: the property theorems.
+   Each is closed by [exact] of a lemma from Proofs_*.v and followed by Print Assumptions. *)
 From Coq Require Import List NArith ZArith Bool.
-From Verif Require Import lib.Wire c08.Varint c08.SymCrypto gen.Consts_c19 c19.Model c19.Spec.
+From Verif Require Import lib.Wire c08.Varint c08.SymCrypto gen.Consts_c19 c19.Model c19.Spec
+     c19.Proofs_Bytes c19.Proofs_Server c19.Proofs_Step c19.Proofs_Client
+     c19.Proofs_Adv c19.Proofs_Trace c19.Proofs_Inv.
 Import ListNotations.
+Local Open Scope N_scope.
 
+(* ==== the server ==================================================================== *)
+(* HEADLINE (server).  For every server configuration, hostname, instant, header
+   value and value table: the property monitor that judges the implementation's
+   answers accepts the model's own answer, in both modes (handshake server,
+   ServerPeerIDAuth over HTTP). *)
+Theorem c19_monitor_accepts_model_server : forall mode sv host now fresh tr tbl hdr c,
+  model_case3 mode sv host now fresh tr tbl hdr = Some c -> monitor3 c = [].
+Proof. exact monitor3_model. Qed.
+Print Assumptions c19_monitor_accepts_model_server.
+
+(* The server reports p only if the header carries a proof: a state authentic
+   under this server's secret that is a challenge for this hostname, not older
+   than challengeTTL, with a signature valid under p's key over (that challenge,
+   this server's public key, this hostname) — or an authentic, unexpired token
+   naming p.  [proven] is Spec.v's boolean, [carried] the values occurring in
+   the header. *)
+Theorem c19_server_reports_only_proven : forall sv host now fresh tbl hdr r p,
+  server_step_i sv host now fresh tbl hdr = Some r -> reported r = Some p ->
+  proven sv host now (carried tbl hdr) p = true.
+Proof. exact server_step_proven. Qed.
+Print Assumptions c19_server_reports_only_proven.
+
+(* the same on parsed parameters, for ANY signature scheme and MAC that obey
+   the ideal rules (Section hypotheses), with the proof spelled out *)
+Theorem c19_server_reports_only_proven_generic :
+  forall (verify : term -> term -> term -> bool) (mac_check : N -> term -> term -> bool),
+  (forall p m s, verify p m s = true <-> sym_origin s = Some (p, m)) ->
+  (forall k m t, mac_check k m t = true <-> t = TMac k m) ->
+  forall sv host now fresh P st p out,
+  server_run verify mac_check sv host now fresh P = SOk st (Some p) out ->
+  challenge_proven sv host now p P \/ token_proven sv now p P.
+Proof. exact server_run_proven. Qed.
+Print Assumptions c19_server_reports_only_proven_generic.
+
+(* state minted under a different secret, or altered in any way (anything that
+   is not  HMAC_secret(fields) ++ fields) is rejected with ErrInvalidHMAC *)
+Theorem c19_server_rejects_foreign_state : forall sv host now P oq sg blob,
+  p_opaque P = Some oq -> p_sig P = Some sg -> pv_dec oq = Some blob ->
+  (forall fields, blob <> TPair (TMac (sv_mac sv) fields) fields) ->
+  run_verify_challenge sym_verify sym_mac_check sv host now P = SErr EInvalidHMAC.
+Proof. exact (foreign_opaque_rejected sym_verify sym_mac_check sym_mac_ideal). Qed.
+Print Assumptions c19_server_rejects_foreign_state.
+
+Theorem c19_server_rejects_foreign_token : forall sv now P b blob,
+  p_bearer P = Some b -> pv_dec b = Some blob ->
+  (forall fields, blob <> TPair (TMac (sv_mac sv) fields) fields) ->
+  run_verify_bearer sym_mac_check sv now P = SErr EInvalidHMAC.
+Proof. exact (foreign_token_rejected sym_mac_check sym_mac_ideal). Qed.
+Print Assumptions c19_server_rejects_foreign_token.
+
+(* no cross use: this server's own challenge state is never accepted as a token,
+   its own token never as a challenge *)
+Theorem c19_no_cross_use_challenge_as_token : forall sv now P b s,
+  p_bearer P = Some b -> pv_dec b = Some (mk_blob (sv_mac sv) s) -> os_token s = false ->
+  run_verify_bearer sym_mac_check sv now P = SErr EOther.
+Proof. exact (challenge_not_a_token sym_mac_check sym_mac_ideal). Qed.
+Print Assumptions c19_no_cross_use_challenge_as_token.
+
+Theorem c19_no_cross_use_token_as_challenge : forall sv host now P oq sg s,
+  p_opaque P = Some oq -> p_sig P = Some sg -> pv_dec oq = Some (mk_blob (sv_mac sv) s) ->
+  os_token s = true ->
+  exists e, run_verify_challenge sym_verify sym_mac_check sv host now P = SErr e.
+Proof. exact (token_not_a_challenge sym_verify sym_mac_check sym_mac_ideal). Qed.
+Print Assumptions c19_no_cross_use_token_as_challenge.
+
+(* use after expiry (strictly later than created + lifetime) *)
+Theorem c19_expired_challenge_rejected : forall sv host now P oq sg s,
+  p_opaque P = Some oq -> p_sig P = Some sg -> pv_dec oq = Some (mk_blob (sv_mac sv) s) ->
+  (now > os_created s + challengeTTL)%Z ->
+  run_verify_challenge sym_verify sym_mac_check sv host now P = SErr EExpiredChallenge.
+Proof. exact (expired_challenge_rejected sym_verify sym_mac_check sym_mac_ideal). Qed.
+Print Assumptions c19_expired_challenge_rejected.
+
+Theorem c19_expired_token_rejected : forall sv now P b s,
+  p_bearer P = Some b -> pv_dec b = Some (mk_blob (sv_mac sv) s) -> os_token s = true ->
+  (now > os_created s + sv_ttl sv)%Z ->
+  run_verify_bearer sym_mac_check sv now P = SErr EExpiredToken.
+Proof. exact (expired_token_rejected sym_mac_check sym_mac_ideal). Qed.
+Print Assumptions c19_expired_token_rejected.
+
+(* ==== the client ==================================================================== *)
+(* HEADLINE (client).  For every sequence of SetInitiateChallenge / ParseHeader /
+   Run calls with arbitrary headers and random draws, the client monitor accepts
+   the model's trace. *)
+Theorem c19_monitor_accepts_model_client : forall ops k h steps,
+  model_csteps (client_init k h) ops = Some steps -> monitor_client k h [] [] 0 steps = [].
+Proof. intros ops k h steps. exact (monitor_client_model_l ops k h _ [] [] 0 steps (inv_init k h)). Qed.
+Print Assumptions c19_monitor_accepts_model_client.
+
+(* the invariant behind it: in every reachable client state, a reported id p
+   comes with a received signature that verifies under p's key over one of the
+   client's own challenges, the client's public key and its hostname *)
+Theorem c19_client_reports_only_proven : forall k h c own vals o c' ok,
+  Inv k h c own vals -> cop_step c o = Some (c', ok) ->
+  Inv k h c' (emitted_challenges (cl_out c') ++ own) (vals_after o vals).
+Proof. exact cop_step_inv. Qed.
+Print Assumptions c19_client_reports_only_proven.
+
+(* ==== the adversary closure ========================================================= *)
+(* For every set of honest servers with secret, pairwise different HMAC secrets,
+   every adversary that starts with no term made with a secret, and every trace
+   in which each header value is derivable from what the adversary has seen
+   (all sub-terms of everything honest parties emitted): whenever a server
+   reports an id p whose key is secret, p itself signed a challenge that this
+   very server minted, for this server's key and hostname (challenge branch,
+   unexpired), or the server minted the presented unexpired token for p after
+   such a signature (token branch). *)
+Theorem c19_accept_implies_origin :
+  forall (secret : N -> bool) (svs : list server),
+  (forall sv, In sv svs -> secret (sv_mac sv) = true) ->
+  (forall a b, In a svs -> In b svs -> sv_mac a = sv_mac b -> a = b) ->
+  forall kn0 tr sv host now p,
+  clean secret kn0 -> valid svs (kn0, []) tr ->
+  In (LAccept sv host now p) (snd (run (kn0, []) tr)) -> secret p = true ->
+  origin_of (snd (run (kn0, []) tr)) sv host now p.
+Proof. exact accept_implies_origin_l. Qed.
+Print Assumptions c19_accept_implies_origin.
+
+(* symmetric: a signature the adversary can present that verifies under an
+   honest key for the client's challenge, key and hostname was made by an honest
+   server holding that key in answer to exactly those *)
+Theorem c19_client_accept_implies_origin :
+  forall (secret : N -> bool) kn log p ch c h sg,
+  KnGood secret kn log -> secret p = true -> knows kn sg = true ->
+  sym_verify (TPub p) (msg_server ch (TPub c) (atom h)) sg = true ->
+  exists sv, sv_key sv = p /\ In (LServerSig sv h ch (TPub c)) log.
+Proof. exact client_accept_origin_l. Qed.
+Print Assumptions c19_client_accept_implies_origin.
+
+(* the invariant holds along every admissible trace *)
+Theorem c19_trace_invariant :
+  forall (secret : N -> bool) (svs : list server),
+  (forall sv, In sv svs -> secret (sv_mac sv) = true) ->
+  (forall a b, In a svs -> In b svs -> sv_mac a = sv_mac b -> a = b) ->
+  forall tr s, good secret svs s -> valid svs s tr -> good secret svs (run s tr).
+Proof. exact run_good. Qed.
+Print Assumptions c19_trace_invariant.
+
+(* ==== bytes ========================================================================= *)
+(* genDataToSign: with the protocol's parameter names the signed bytes determine
+   the three values, and a client's data never equals a server's *)
+Theorem c19_client_sig_data_injective : forall c s h c' s' h',
+  client_sig_data c s h = client_sig_data c' s' h' -> c = c' /\ s = s' /\ h = h'.
+Proof. exact client_sig_data_inj_l. Qed.
+Print Assumptions c19_client_sig_data_injective.
+
+Theorem c19_server_sig_data_injective : forall c p h c' p' h',
+  server_sig_data c p h = server_sig_data c' p' h' -> c = c' /\ p = p' /\ h = h'.
+Proof. exact server_sig_data_inj_l. Qed.
+Print Assumptions c19_server_sig_data_injective.
+
+Theorem c19_sig_data_domains_separated : forall c s h c' p' h',
+  client_sig_data c s h <> server_sig_data c' p' h'.
+Proof. exact sig_data_separated_l. Qed.
+Print Assumptions c19_sig_data_domains_separated.
+
+Theorem c19_gen_data_injective : forall prefix parts parts',
+  gen_data prefix parts = gen_data prefix parts' ->
+  map kv (sort_parts parts) = map kv (sort_parts parts').
+Proof. exact gen_data_inj. Qed.
+Print Assumptions c19_gen_data_injective.
+
+(* the parser returns only contiguous parts of the header value *)
+Theorem c19_parser_values_within_header : forall hdr p e,
+  parse_scheme_params hdr bp_empty = (p, e) -> bp_within hdr p.
+Proof. exact parse_scheme_params_within. Qed.
+Print Assumptions c19_parser_values_within_header.
+
+(* ==== constants re-read from the source ============================================= *)
 Theorem c19_challenge_ttl_is_five_minutes : challengeTTL = (5 * 60 * 1000000000)%Z.
 Proof. reflexivity. Qed.
 Print Assumptions c19_challenge_ttl_is_five_minutes.
+
+Theorem c19_challenge_len_is_32 : challengeLen = 32%Z.
+Proof. reflexivity. Qed.
+Print Assumptions c19_challenge_len_is_32.
+
+(* ==== non-vacuity =================================================================== *)
+From Coq Require Import String.
+(* a valid server-initiated handshake: server 1 (secret 2) at hostname 7 minted a
+   challenge (atom 100) at instant 0; client 3 signed it *)
+Definition ex_sv := mkSrv 1 2 3600000000000.
+Definition ex_blob := mk_blob 2 (challenge_state 7 0 100 None).
+Definition ex_sig := TSig 3 (msg_client (atom 100) (TPub 1) (atom 7)) 0.
+Definition ex_pv (id : N) (t : term) := mkPV id 44 (Some t).
+Definition ex_P (blob sg : term) :=
+  mkP None None (Some (mkPV 200 44 None)) (Some (ex_pv 50 blob)) (Some (ex_pv 51 (TPub 3))) (Some (ex_pv 52 sg)).
+
+Example model_accepts_valid_handshake :
+  reported (server_run_i ex_sv 7 1000 101 (ex_P ex_blob ex_sig)) = Some 3.
+Proof. vm_compute. reflexivity. Qed.
+
+(* exactly at expiry the challenge is still accepted (time.After), one ns later it is not *)
+Example model_accepts_at_expiry_instant :
+  reported (server_run_i ex_sv 7 challengeTTL 101 (ex_P ex_blob ex_sig)) = Some 3 /\
+  server_run_i ex_sv 7 (challengeTTL + 1) 101 (ex_P ex_blob ex_sig) = SErr EExpiredChallenge.
+Proof. split; vm_compute; reflexivity. Qed.
+
+(* the same request at a server with another secret, at another hostname, with
+   a signature by another key, or over another server's key: rejected *)
+Example model_rejects_near_misses :
+  server_run_i (mkSrv 1 9 0) 7 1000 101 (ex_P ex_blob ex_sig) = SErr EInvalidHMAC /\
+  server_run_i ex_sv 8 1000 101 (ex_P ex_blob ex_sig) = SErr EOther /\
+  server_run_i ex_sv 7 1000 101 (ex_P ex_blob (TSig 4 (msg_client (atom 100) (TPub 1) (atom 7)) 0)) = SErr EOther /\
+  server_run_i ex_sv 7 1000 101 (ex_P ex_blob (TSig 3 (msg_client (atom 100) (TPub 5) (atom 7)) 0)) = SErr EOther /\
+  server_run_i ex_sv 7 1000 101 (ex_P ex_blob (TSig 3 (msg_server (atom 100) (TPub 1) (atom 7)) 0)) = SErr EOther.
+Proof. repeat split; vm_compute; reflexivity. Qed.
+
+(* the monitor rejects implementations' answers that the property forbids:
+   the header carries blob "B" and signature "S"; the server answers "peer 3" *)
+Definition ex_case (sv : server) (host : N) (now : Z) (pid : Z) : case3 :=
+  mkC3 0 sv host now 101 (mkTr true true true false false)
+       [(str "B"%string, (50, Some ex_blob)); (str "S"%string, (52, Some ex_sig))] (str "x B S"%string)
+       0 1 pid [].
+
+Example monitor_accepts_justified_report : monitor3 (ex_case ex_sv 7 1000 3) = [].
+Proof. vm_compute. reflexivity. Qed.
+Example monitor_rejects_expired : monitor3 (ex_case ex_sv 7 (challengeTTL + 1) 3) <> [].
+Proof. vm_compute. discriminate. Qed.
+Example monitor_rejects_foreign_secret : monitor3 (ex_case (mkSrv 1 9 0) 7 1000 3) <> [].
+Proof. vm_compute. discriminate. Qed.
+Example monitor_rejects_other_hostname : monitor3 (ex_case ex_sv 8 1000 3) <> [].
+Proof. vm_compute. discriminate. Qed.
+Example monitor_rejects_other_identity : monitor3 (ex_case ex_sv 7 1000 4) <> [].
+Proof. vm_compute. discriminate. Qed.
+
+(* the client: a full client-initiated handshake in the model ends with the
+   server's id reported; a report with nothing received is rejected by the monitor *)
+Definition ex_srv_sig := TSig 1 (msg_server (atom 300) (TPub 3) (atom 7)) 0.
+Definition ex_cl_ops : list cop :=
+  [OInit; ORun 300;
+   OParse [(str "K"%string, (60, Some (TPub 1))); (str "G"%string, (61, Some ex_srv_sig))] (str "libp2p-PeerID public-key=""K"", sig=""G"""%string) [];
+   ORun 301].
+Example model_client_reports_after_proof :
+  match model_csteps (client_init 3 7) ex_cl_ops with
+  | Some steps => map cs_pid steps = [-1; -1; -1; 1]%Z
+  | None => False
+  end.
+Proof. vm_compute. reflexivity. Qed.
+
+Example client_monitor_rejects_unproven_report :
+  monitor_client 3 7 [] [] 0 [mkCS 2 300 [] [] [] true 5 1 true false []] <> [].
+Proof. vm_compute. discriminate. Qed.
+
+(* the adversary model is inhabited: an admissible trace in which the server
+   accepts the honest client 3 (keys 1..5 secret, the adversary owns key 9) *)
+Definition ex_secret (k : N) : bool := k <=? 5.
+Definition ex_trace : list event :=
+  [EvServer ex_sv 7 0 100 None;
+   EvClient 3 (atom 100) 1 7;
+   EvServer ex_sv 7 1000 101 (Some (ex_P ex_blob ex_sig))].
+
+Example adversary_trace_is_admissible_and_accepts :
+  clean ex_secret [TKey 9] /\ valid [ex_sv] ([TKey 9], []) ex_trace /\
+  In (LAccept ex_sv 7 1000 3) (snd (run ([TKey 9], []) ex_trace)).
+Proof.
+  split; [|split].
+  - split.
+    + intros t [<-|[]] s [<-|[]]. left. reflexivity.
+    + intros s [<-|[]]. reflexivity.
+  - cbn [valid ex_trace]. repeat split; try (left; reflexivity).
+    + intros v t H. cbn in H. repeat (destruct H as [H|H]; [discriminate|]). contradiction.
+    + intros v t H Hd. cbn [pvals params_of ex_P p_bearer p_chalC p_chalS p_opaque p_pk p_sig In] in H.
+      repeat (destruct H as [H|H]; [first [discriminate | (inversion H; subst v; cbn in Hd; inversion Hd; subst t; vm_compute; reflexivity)]|]).
+      contradiction.
+  - vm_compute. left. reflexivity.
+Qed.
